@@ -510,8 +510,14 @@ func runEval(r *core.Run, p pat, mt string, subjects []string) {
 		j := &judge{r: r, c: c, n: p.N, g: g}
 		all := j.checkSweep(sw)
 		classify(r, c, p, all, s)
+		if len(s) <= partConstMaxLen && (mt == absentMT || mt == "i") {
+			runPartConst(r, c, p, mt, s, sw)
+		}
 	}
 }
+
+// partConstMaxLen bounds the subjects of route eval-partconst (85 subjects of length <= 3).
+const partConstMaxLen = 3
 
 func classify(r *core.Run, c c33Case, p pat, all [][2]int, s string) {
 	empty := 0
@@ -865,7 +871,7 @@ func init() {
 		Level: "exploration",
 		Rule: "every pattern with <=3 (quick) / <=4 (thorough) AST nodes over {a,b,.,[ab],[^a],^,$,concat,|,*,+,?,{1,2},group} (no quantifier directly on a quantifier or on a bare anchor) " +
 			"x every subject of length <=4 over {a,b,A,\\n} x match_type in {absent,'',c,i,m,n,ic,imn} x pos 1..5 x occurrence (instr 1..6, substr 1..3, replace 0..3) x return_option 0/1 x replacement ('#' with every occurrence, '<->' and '' with occurrence 0 and 1): " +
-			"route eval = the four function expressions evaluated directly (pattern literal, other arguments row fields); routes sql-column / sql-literal = SQL statements over a subject table / all-literal arguments with 3 option tuples per function; " +
+			"route eval = the four function expressions evaluated directly (pattern literal, other arguments row fields); routes sql-column / sql-literal = SQL statements over a subject table / all-literal arguments with 3 option tuples per function; route eval-partconst (subjects of length <=3, match_type absent / i) = INSTR/SUBSTR/REPLACE with every argument a literal except one (pos, occurrence, return_option or replacement), which comes from the row and is swept over its domain ascending and descending on one expression object — must equal the all-field call; " +
 			"plus a list of invalid patterns (must be an error in all four functions) and NULL arguments (must give NULL). " +
 			"Oracle: (1) reference = backtracking AST matcher with ICU's rules for ^ $ . nullable loops and findNext, itself cross-checked against Go regexp (find-from-offset with whole-subject context) on every case where RE2 and ICU coincide (not: '$' without m / '^' with m on a subject ending in \\n; quantified nullable bodies); " +
 			"(2) when the reference comparison of a case passes, the reference-free agreement laws: LIKE <=> INSTR>0 <=> SUBSTR non-NULL, SUBSTR = subject[INSTR start, INSTR end), occurrences ordered/contiguous, REPLACE = subject with the matches enumerated by successive INSTR calls replaced. " +
@@ -959,7 +965,7 @@ func init() {
 				// (pattern, match_type) case, so a replay re-runs the subjects in the explorer's order
 				// up to and including the witness subject.
 				switch c.Route {
-				case "eval":
+				case "eval", "eval-partconst":
 					runEval(r, p, c.MT, subjectsUpTo(c.Subject))
 				case "sql-column":
 					runSQLColumn(r, newSQLFixture(subjectsUpTo(c.Subject)), p, c.MT, "sql-column")
